@@ -583,71 +583,6 @@ theorem posFrom_cells (base : Nat) (name : String) (n : Nat) : ∀ (es : List (I
         (cellsIn_cons (step_load_cell hP) (ih (i + 1))))
     · exact cellsIn_cons (step_private rfl rfl) (ih (i + 1))
 
-theorem allOfFrom_cells (n : String) : ∀ (os : List (Nat × Bool)),
-    cellsIn (fun c => c ∈ os.map (·.1)) (progAllOfFrom (.const n) os) := by
-  intro os
-  induction os with
-  | nil => exact cellsIn_nil _
-  | cons o rest ih =>
-    obtain ⟨c, ok⟩ := o
-    have hP : c ∈ ((c, ok) :: rest).map (·.1) := by simp
-    have ih' : cellsIn (fun x => x ∈ ((c, ok) :: rest).map (·.1)) (progAllOfFrom (.const n) rest) :=
-      fun s hs => ⟨fun x hx => List.mem_cons_of_mem _ ((ih s hs).1 x hx), fun x hx => List.mem_cons_of_mem _ ((ih s hs).2 x hx)⟩
-    exact cellsIn_cons (step_write_const _ hP) (cellsIn_cons (step_check_cell _ hP) ih')
-
-theorem oneOfFrom_cells (n : String) : ∀ (os : List (Nat × Bool)),
-    cellsIn (fun c => c ∈ os.map (·.1)) (progOneOfFrom (.const n) os) := by
-  intro os
-  induction os with
-  | nil => exact cellsIn_nil _
-  | cons o rest ih =>
-    obtain ⟨c, ok⟩ := o
-    have hP : c ∈ ((c, ok) :: rest).map (·.1) := by simp
-    have ih' : cellsIn (fun x => x ∈ ((c, ok) :: rest).map (·.1)) (progOneOfFrom (.const n) rest) :=
-      fun s hs => ⟨fun x hx => List.mem_cons_of_mem _ ((ih s hs).1 x hx), fun x hx => List.mem_cons_of_mem _ ((ih s hs).2 x hx)⟩
-    exact cellsIn_cons (step_write_const _ hP) (cellsIn_cons (step_check_cell _ hP) ih')
-
-theorem cellsIn_const_tail (P : Nat → Prop) (n : String) (v : Int) :
-    cellsIn P [.store (.const n) v true, .load (.const n)] :=
-  cellsIn_cons (step_private rfl rfl) (cellsIn_cons (step_private rfl rfl) (cellsIn_nil _))
-
-theorem cellsIn_const_fail (P : Nat → Prop) (n : String) : cellsIn P [.check (.const n) false] :=
-  cellsIn_cons (step_private rfl rfl) (cellsIn_nil _)
-
-theorem anyOf_cells (n : String) (v : Int) : ∀ (os : List (Nat × Bool)),
-    cellsIn (fun c => c ∈ os.map (·.1)) (progAnyOf (.const n) v os) := by
-  intro os
-  induction os with
-  | nil => exact cellsIn_const_fail _ _
-  | cons o rest ih =>
-    obtain ⟨c, ok⟩ := o
-    have hP : c ∈ ((c, ok) :: rest).map (·.1) := by simp
-    have ih' : cellsIn (fun x => x ∈ ((c, ok) :: rest).map (·.1)) (progAnyOf (.const n) v rest) :=
-      fun s hs => ⟨fun x hx => List.mem_cons_of_mem _ ((ih s hs).1 x hx), fun x hx => List.mem_cons_of_mem _ ((ih s hs).2 x hx)⟩
-    simp only [progAnyOf]
-    refine cellsIn_cons (step_write_const _ hP) (cellsIn_cons (step_check_cell _ hP) ?_)
-    cases ok with
-    | true =>
-      exact cellsIn_cons (step_store_cell _ _ hP) (cellsIn_cons (step_private rfl rfl)
-        (cellsIn_cons (step_private rfl rfl) (cellsIn_nil _)))
-    | false => exact ih'
-
-theorem notField_cells (n : String) (v : Int) : ∀ (os : List (Nat × Bool)),
-    cellsIn (fun c => c ∈ os.map (·.1)) (progNotField (.const n) v os) := by
-  intro os
-  induction os with
-  | nil => exact cellsIn_const_tail _ _ _
-  | cons o rest ih =>
-    obtain ⟨c, ok⟩ := o
-    have hP : c ∈ ((c, ok) :: rest).map (·.1) := by simp
-    have ih' : cellsIn (fun x => x ∈ ((c, ok) :: rest).map (·.1)) (progNotField (.const n) v rest) :=
-      fun s hs => ⟨fun x hx => List.mem_cons_of_mem _ ((ih s hs).1 x hx), fun x hx => List.mem_cons_of_mem _ ((ih s hs).2 x hx)⟩
-    simp only [progNotField]
-    refine cellsIn_cons (step_write_const _ hP) (cellsIn_cons (step_check_cell _ hP) ?_)
-    cases ok with
-    | true => exact cellsIn_const_fail _ _
-    | false => exact ih'
-
 theorem cellsIn_mono {P Q : Nat → Prop} {p : List Step} (h : ∀ c, P c → Q c) (hp : cellsIn P p) : cellsIn Q p :=
   fun s hs => ⟨fun c hc => h c ((hp s hs).1 c hc), fun c hc => h c ((hp s hs).2 c hc)⟩
 
@@ -691,17 +626,37 @@ theorem wrapProg_cells {P : Nat → Prop} (kind : WKind) (own : Nm) (v : Int) (h
     ∀ (os : List (Nat × Bool)), (∀ o ∈ os, P o.1) → cellsIn P (wrapProg kind own v os) := by
   have tailOk : cellsIn P [.store own v true, .load own] := cellsIn_store hown (cellsIn_load hown (cellsIn_nil _))
   have failOk : cellsIn P [.check own false] := cellsIn_check hown (cellsIn_nil _)
-  cases kind with
-  | allOf =>
-    intro os hos
-    simp only [wrapProg, progAllOf]
-    refine cellsIn_append ?_ tailOk
+  have throughOk : ∀ c, P c → cellsIn P (storeThrough own v c) := fun c hc =>
+    cellsIn_store (cell_cells hc) (cellsIn_move hown hown (cellsIn_load hown (cellsIn_nil _)))
+  have fromOk : ∀ (os : List (Nat × Bool)), (∀ o ∈ os, P o.1) → cellsIn P (progAllOfFrom own os) := by
+    intro os
     induction os with
-    | nil => exact cellsIn_nil _
+    | nil => intro _; exact cellsIn_nil _
     | cons o rest ih =>
+      intro hos
       obtain ⟨c, ok⟩ := o
       have hc : P c := hos (c, ok) (by simp)
       exact cellsIn_write hc hown (cellsIn_check (cell_cells hc) (ih (fun o ho => hos o (List.mem_cons_of_mem _ ho))))
+  have oneFromOk : ∀ (os : List (Nat × Bool)), (∀ o ∈ os, P o.1) → cellsIn P (progOneOfFrom own os) := by
+    intro os
+    induction os with
+    | nil => intro _; exact cellsIn_nil _
+    | cons o rest ih =>
+      intro hos
+      obtain ⟨c, ok⟩ := o
+      have hc : P c := hos (c, ok) (by simp)
+      exact cellsIn_write hc hown (cellsIn_check (cell_cells hc) (ih (fun o ho => hos o (List.mem_cons_of_mem _ ho))))
+  cases kind with
+  | allOf =>
+    intro os hos
+    exact cellsIn_append (fromOk os hos) tailOk
+  | allOfThrough =>
+    intro os hos
+    simp only [wrapProg, progAllOfThrough]
+    refine cellsIn_append (fromOk os hos) ?_
+    cases os with
+    | nil => exact tailOk
+    | cons o rest => exact throughOk o.1 (hos o (by simp))
   | anyOf =>
     intro os
     induction os with
@@ -713,18 +668,24 @@ theorem wrapProg_cells {P : Nat → Prop} (kind : WKind) (own : Nm) (v : Int) (h
       simp only [wrapProg, progAnyOf]
       refine cellsIn_write hc hown (cellsIn_check (cell_cells hc) ?_)
       cases ok with
-      | true => exact cellsIn_store (cell_cells hc) (cellsIn_move hown hown (cellsIn_load hown (cellsIn_nil _)))
+      | true => exact throughOk c hc
       | false => exact ih (fun o ho => hos o (List.mem_cons_of_mem _ ho))
   | oneOf =>
     intro os hos
     simp only [wrapProg, progOneOf]
-    refine cellsIn_append ?_ (by split; exact tailOk; exact failOk)
-    induction os with
-    | nil => exact cellsIn_nil _
-    | cons o rest ih =>
-      obtain ⟨c, ok⟩ := o
-      have hc : P c := hos (c, ok) (by simp)
-      exact cellsIn_write hc hown (cellsIn_check (cell_cells hc) (ih (fun o ho => hos o (List.mem_cons_of_mem _ ho))))
+    refine cellsIn_append (oneFromOk os hos) ?_
+    split
+    · exact tailOk
+    · exact failOk
+  | oneOfThrough =>
+    intro os hos
+    simp only [wrapProg, progOneOfThrough]
+    refine cellsIn_append (oneFromOk os hos) ?_
+    split
+    · next c b heq =>
+      have hm : (c, b) ∈ os.filter fun o => o.2 := by rw [heq]; simp
+      exact throughOk c (hos (c, b) (List.mem_filter.mp hm).1)
+    · exact failOk
   | notField =>
     intro os
     induction os with
@@ -785,20 +746,14 @@ theorem Call.prog_cellsIn (call : Call) : cellsIn (fun c => call.usesCell c = tr
       (fun c (hc : base ≤ c ∧ c < base + n) => by simpa [Call.usesCell] using hc) (posFrom_cells base name n es 0)
     exact cellsIn_cons (step_private rfl rfl) h
   | wrap kind name v os =>
-    have hQ : ∀ c, c ∈ os.map (·.1) → (Call.wrap kind name v os).usesCell c = true := by
-      intro c hc
-      simpa [Call.usesCell] using hc
-    cases kind with
-    | allOf =>
-      exact cellsIn_append (cellsIn_mono hQ (allOfFrom_cells name os)) (cellsIn_const_tail _ _ _)
-    | anyOf => exact cellsIn_mono hQ (anyOf_cells name v os)
-    | oneOf =>
-      simp only [Call.prog, progOneOf]
-      apply cellsIn_append (cellsIn_mono hQ (oneOfFrom_cells name os))
-      split
-      · exact cellsIn_const_tail _ _ _
-      · exact cellsIn_const_fail _ _
-    | notField => exact cellsIn_mono hQ (notField_cells name v os)
+    have hos : ∀ o ∈ os, (Call.wrap kind name v os).usesCell o.1 = true := by
+      intro o ho
+      simp only [Call.usesCell]
+      rw [List.contains_iff_mem, List.mem_map]
+      exact ⟨o, ho, rfl⟩
+    have h := wrapProg_cells (P := fun c => (Call.wrap kind name v os).usesCell c = true) kind (.const name) v
+      (fun _ hx => nomatch hx) os hos
+    cases kind <;> exact h
   | nest cW name kind es =>
     have hW : (Call.nest cW name kind es).usesCell cW = true := by simp [Call.usesCell]
     have hes : ∀ e ∈ es, ∀ o ∈ e.2, (Call.nest cW name kind es).usesCell o.1 = true := by
